@@ -126,6 +126,20 @@ Definition C13_srv_ok (local_port conn_port : Z) (auth_enabled : bool) (socks : 
    | None => true
    end).
 
+(* no datagram seen claims the server's authentication *)
+Definition no_srv_auth (obs : list sobs) : bool :=
+  forallb (fun o => match carries_auth spi_server (so_rx o) with Some _ => false | None => true end) obs.
+
+(* The listener could not obtain the host-host key (DRKey daemon error, key of a
+   wrong length): authentication does not take place - the clauses about
+   addressing and forwarding stay, and a reply to a request for the service
+   must not carry the server's authenticator (nothing is passed off as
+   authenticated). *)
+Definition C13_srv_nokey_ok (local_port conn_port : Z) (socks : list (bytes * Z))
+    (sender : Z) (q : rx) (qrev : option (Z * bytes)) (obs : list sobs) : bool :=
+  C13_srv_ok local_port conn_port false socks sender q [] qrev obs &&
+  (if for_service local_port q then no_srv_auth obs else true).
+
 (* ---- client ---- *)
 (* result: 0 i a = accepted response i (a: counted as authenticated), 1 = error, 2 = timeout *)
 Definition C13_cli_ok (auth_enabled : bool) (req : rx) (reqmac : bytes) (resps : list (rx * bytes))
@@ -150,3 +164,32 @@ Definition C13_cli_ok (auth_enabled : bool) (req : rx) (reqmac : bytes) (resps :
       end
   | None => true
   end.
+
+(* ---- fail-closed authentication (NOT a clause of C13 as stated; the pinned
+        code does not have this property, see Props/C13.v) ----
+   A client configured to authenticate computes an offset only from a response
+   that carries the server's authenticator with the MAC of the received packet
+   under a host-host key it holds, of the current epoch: no key, a stale key, a
+   response without (or with an unrecognised) authenticator => nothing is accepted. *)
+Definition C13_cli_strict_ok (auth_wanted key_ok epoch_ok : bool) (resps : list (rx * bytes))
+    (accepted : option nat) : bool :=
+  if auth_wanted then
+    match accepted with
+    | None => true
+    | Some i =>
+        key_ok && epoch_ok &&
+        match nth_error resps i with
+        | Some (q, m) =>
+            match carries_auth spi_server q with
+            | Some a => bytes_eqb m (opt_mac a)
+            | None => false
+            end
+        | None => false
+        end
+    end
+  else true.
+
+(* A listener does not authenticate with a key whose epoch is over: the reply
+   to a request for the service does not carry the server's authenticator. *)
+Definition C13_srv_strict_ok (local_port : Z) (epoch_ok : bool) (q : rx) (obs : list sobs) : bool :=
+  if for_service local_port q && negb epoch_ok then no_srv_auth obs else true.
